@@ -268,7 +268,39 @@ class Analyzer(object):
         self.mem_writes = []  # assignments through a dereference: (bb, idx, stmt)
         self._memo = {}
         self._cell_off = False
+        self._canon = self._canon_params()
         self._index()
+
+    def _canon_params(self):
+        """current parameter name -> canonical name (spec/param_names.json), by position, for this body or the
+        fn whose async/closure body this is"""
+        prog = self.prog
+        if prog is None:
+            return {}
+        table = getattr(prog, "_param_spec", None)
+        if table is None:
+            import json as _json
+            import os as _os
+            path = _os.path.join(_os.path.dirname(_os.path.dirname(_os.path.abspath(__file__))), "spec", "param_names.json")
+            try:
+                table = _json.load(open(path))["fns"]
+            except Exception:
+                table = {}
+            prog._param_spec = table
+        b = self.body
+        for _ in range(4):
+            if b is None:
+                return {}
+            if b.kind in ("Fn", "AssocFn"):
+                break
+            b = prog.lib_bodies.get(b.parent) if b.parent else None
+        if b is None or b.key not in table:
+            return {}
+        want = table[b.key]
+        have = [b.local_name(i) for i in range(1, b.arg_count + 1)]
+        if len(want) != len(have):
+            return {}
+        return {h: w for h, w in zip(have, want) if h and h != w}
 
     def _index(self):
         for b in self.body.blocks:
@@ -352,6 +384,8 @@ class Analyzer(object):
         return e
 
     def _field(self, e, name):
+        if e == ("env",) and self._canon:
+            name = self._canon.get(name, name)
         # simplifications
         if e[0] == "agg":
             for n, v in e[2]:
@@ -499,7 +533,7 @@ class Analyzer(object):
                 return ("env",)
             if body.coroutine and local == 2:
                 return ("resume",)
-        return ("param", local, name)
+        return ("param", local, self._canon.get(name, name))
 
     def _def_value(self, item, point, depth):
         from .ir import Stmt, Term
